@@ -867,7 +867,7 @@ def mpci_gamma(z, prec, type=0):
 
     # Real case
     if b1 == b2 == fzero and (type != 3 or mpf_gt(a1,fzero)):
-        return mpi_gamma(z, prec, type), mpi_zero
+        return mpi_gamma((a1,a2), prec, type), mpi_zero
 
     # Estimate precision
     wp = prec+20
